@@ -108,7 +108,7 @@ static int set_token(BufrDescriptor *b, char *tok){
           if(b->value->type==VALTYPE_INT32 || b->value->type==VALTYPE_INT8) return bufr_descriptor_set_ivalue(b,(int)iv) < 0 ? -1 : 0;
           if(b->value->type==VALTYPE_INT64) return bufr_value_set_int64(b->value, iv) < 0 ? -1 : 0;
           { int sc = b->encoding.scale; double d = (double)iv;       /* correctly rounded (raw+ref)/10^scale: operands exact below 2^53, 10^k exact for k<=22 */
-            if(sc!=0) d = d / pow(10.0, (double)sc);   /* the same arithmetic a decode of this raw value performs: (raw+ref)/10^scale */
+            if(sc>0) d = d / pow(10.0, (double)sc); else if(sc<0) d = d * pow(10.0, (double)(-sc));   /* the same arithmetic a decode of this raw value performs: (raw+ref)/10^scale, (raw+ref)*10^-scale for a negative scale */
             if(b->value->type==VALTYPE_FLT32) return bufr_descriptor_set_fvalue(b,(float)d) < 0 ? -1 : 0;
             return bufr_descriptor_set_dvalue(b,d) < 0 ? -1 : 0; } }
         case TYPE_CODETABLE: case TYPE_FLAGTABLE:
